@@ -8,6 +8,7 @@ import (
 	"encoding/json"
 	"errors"
 	"fmt"
+	"iter"
 	"os"
 	"sort"
 	"time"
@@ -67,6 +68,9 @@ type World struct {
 
 	pending []pendingBatch
 
+	// MetaIgnoresPrefilter: engines see a MetaStore that never prefilters (set before AddEngine).
+	MetaIgnoresPrefilter bool
+
 	// WrapData/WrapMeta, when set before Open, wrap the stores the engines see.
 	IData *stores.InstrDataStore
 	IMeta *stores.InstrMetaStore
@@ -114,10 +118,23 @@ func (w *World) dataForEngine() bs.DataStore {
 }
 
 func (w *World) metaForEngine() bs.MetaStore {
+	var m bs.MetaStore = w.Meta
 	if w.IMeta != nil {
-		return w.IMeta
+		m = w.IMeta
 	}
-	return w.Meta
+	if w.MetaIgnoresPrefilter {
+		return noPrefilterMeta{m}
+	}
+	return m
+}
+
+// noPrefilterMeta is a MetaStore that leaves prefiltering entirely to the engine (the contract
+// allows it): it asks the store underneath for everything. What it yields may then share storage
+// with what the store keeps, which a consumer must treat as read-only.
+type noPrefilterMeta struct{ bs.MetaStore }
+
+func (m noPrefilterMeta) GetMaybeFilesForQuery(ctx context.Context, _ *bs.QueryPrefilter) iter.Seq2[bs.MaybeFile, error] {
+	return m.MetaStore.GetMaybeFilesForQuery(ctx, nil)
 }
 
 func (w *World) AddEngine(spec gen.EngineSpec) (int, error) {
